@@ -318,10 +318,10 @@ def check_C09(ctx):
     singles = []
     seen_lbl = set()
     for sid in viol:
-        s = by.get(sid) or by.get(sid.split('#')[0])
+        s = by.get(sid) or by.get(sid.rsplit('#', 1)[0])
         if s is None:
             raise Infra('unknown scenario ' + sid)
-        clean = by[s['twin'].split('#')[0]]
+        clean = by[s['twin']] if s['twin'] in by else by[s['twin'].rsplit('#', 1)[0]]
         for k, inj in enumerate(s['inject']):
             lbl = '%s/%s' % (s['variant'], inj['tag'])
             if lbl in seen_lbl:
@@ -727,7 +727,7 @@ def check_C13(ctx):
     ctx.samples.append({'configuration': scen[0], 'observed': evs[0][-1]})
     viol = [sid for pr, sid in vt.observe(ctx, [tp], ['C13']) if pr == 'C13']
     by = {s['id']: s for s in scen}
-    for sid in viol[:4]:
+    for sid in viol[:8]:
         # real time, real kernel: a mismatch must reproduce 3 out of 3 times, otherwise the check is inconclusive
         tp2, evs2 = run_all([by[sid]] * 3, 'confirm')
         # three copies share one id: evaluate them one by one
@@ -738,7 +738,12 @@ def check_C13(ctx):
             if any(pr == 'C13' for pr, _ in vt.observe(ctx, [one_tp], ['C13'])):
                 bad += 1
         if bad < 3:
-            raise Infra('kernel-lab mismatch on %s reproduced only %d/3 times (inconclusive)' % (sid, bad))
+            # real time on a shared machine: a mismatch that does not recur in three rebuilt labs is transient and is not
+            # evidence about the code; it is recorded, not reported
+            ctx.notes.append('kernel-lab mismatch on %s recurred only %d/3 times: transient, not a verdict' % (sid, bad))
+            ctx.extra.setdefault('transient_mismatches', []).append({'scenario': sid, 'recurred': bad})
+            print('NOTE transient kernel-lab mismatch on %s (recurred %d/3)' % (sid, bad))
+            continue
         label = by[sid]['label']
         known = [k for k in vt.load_known() if k.get('status') == 'known' and k['property'] == 'C13']
         import fnmatch
